@@ -463,7 +463,10 @@ pub fn eval(e: &Expr, env: &mut Env) -> R {
                     let chars: Vec<char> = s.chars().collect();
                     Ok(V::Str(py_slice(&chars, ints[0], ints[1], st).into_iter().collect()))
                 }
-                _ => Err(Stop::Any),
+                // only arrays and strings can be sliced: an operation on an unsupported operand
+                // type fails, whatever the bounds are (seeded change C02-13 answered `n[:]` with a
+                // copy of n before looking at its kind)
+                _ => Err(Stop::Err),
             }
         }
         Expr::Unary(UnOp::Not, x) => {
